@@ -126,7 +126,7 @@ reset_instance!(vs_pim_reset_finwait2, VirtualSocketState::FinWait2, true);
 // @tier C
 reset_instance!(vs_pim_stray_syn_established, VirtualSocketState::Established, false);
 
-// @verif id=VS.pim.state props=C17,C04,C05,C10 tier=quick timeout=900
+// @verif id=VS.pim.state props=C17,C04,C05,C10,C09 tier=quick timeout=900
 // @functions VirtualSocket::process_incoming_message (ST_STATE), Segments::remove_up_to_ack (empty queue), SegmentSizes::on_payload_delivered, Recovery::on_ack, MockCc
 // @bounds states Established, FinWait2, SynAckSent (own initial sequence number ANY u16), FinWait1, LastAck (own FIN = OUR_SEQ-1 = 65533); ST_STATE with ANY seq_nr, ack_nr, window, timestamp; nothing in flight
 // @asserts never an error, never a datagram; peer window and timestamp recorded verbatim and handed to the controller; receive-side position untouched (a state packet consumes nothing); transitions: SynAckSent -> Established iff it acknowledges our SYN-ACK number; FinWait1 -> FinWait2 (or Closed for the STATE-as-FIN quirk) iff it acknowledges our FIN; LastAck -> Closed iff it acknowledges our FIN; all other cases keep the state
@@ -246,7 +246,7 @@ macro_rules! fin_instance {
     };
 }
 
-// @verif id=VS.pim.fin.est props=C17,C03,C04,C07 tier=quick timeout=1200 mem=16
+// @verif id=VS.pim.fin.est props=C17,C03,C04,C07,C09 tier=quick timeout=1200 mem=16
 // @functions VirtualSocket::process_incoming_message (ST_FIN), UserTx::mark_vsock_closed, VirtualSocket::force_immediate_ack
 // @stubs UserRx::add_remove -> contract stub (records offset/type, returns any of Consumed/AlreadyPresent/Unavailable); the real function is decided by OOQ.add.* / RX.add.*
 // @bounds state Established; FIN exactly in sequence (seq_nr == last consumed + 1 == 0, across the 16-bit wrap), ANY ack_nr/window/timestamps; reassembly queue empty
@@ -271,7 +271,7 @@ fin_instance!(vs_pim_fin_established_ahead, VirtualSocketState::Established, 1);
 // @tier C
 fin_instance!(vs_pim_fin_established_behind, VirtualSocketState::Established, -1);
 
-// @verif id=VS.pim.fin.fw1 props=C17,C03,C04 tier=quick timeout=1200 mem=16
+// @verif id=VS.pim.fin.fw1 props=C17,C03,C04,C09 tier=quick timeout=1200 mem=16
 // @functions VirtualSocket::process_incoming_message (ST_FIN)
 // @bounds state FinWait1 (own FIN = OUR_SEQ-1); FIN in sequence, ANY ack_nr
 // @asserts Closed if it also acknowledges our FIN, else LastAck keeping our FIN number; FIN consumed, immediate ACK forced
@@ -279,7 +279,7 @@ fin_instance!(vs_pim_fin_established_behind, VirtualSocketState::Established, -1
 // @tier C
 fin_instance!(vs_pim_fin_finwait1_in_seq, VirtualSocketState::FinWait1 { our_fin: SeqNr(OUR_SEQ.wrapping_sub(1)) }, 0);
 
-// @verif id=VS.pim.fin.fw1.p1 props=C17,C03,C04 tier=quick timeout=1200 mem=16
+// @verif id=VS.pim.fin.fw1.p1 props=C17,C03,C04,C09 tier=quick timeout=1200 mem=16
 // @functions VirtualSocket::process_incoming_message (ST_FIN)
 // @bounds state FinWait1 (own FIN = OUR_SEQ-1); FIN one AHEAD of the next expected number, ANY ack_nr (including one that acknowledges our FIN: simultaneous close with a data packet still missing)
 // @asserts a FIN is honoured only in sequence: nothing changes at all, whatever it acknowledges
@@ -321,7 +321,7 @@ fin_instance!(vs_pim_fin_synacksent, VirtualSocketState::SynAckSent { count: 1 }
 
 // ---- ST_DATA ------------------------------------------------------------------------------------
 
-// @verif id=VS.pim.data props=C07,C04,C01,C11,C10 tier=quick timeout=1500 mem=16
+// @verif id=VS.pim.data props=C07,C04,C01,C11,C10,C09 tier=quick timeout=1500 mem=16
 // @functions VirtualSocket::process_incoming_message (ST_DATA), VirtualSocket::force_immediate_ack, VirtualSocket::send_ack, VirtualSocket::send_control_packet, VirtualSocket::outgoing_header, SegmentSizes::on_payload_delivered, UtpHeader::serialize
 // @bounds state Established; DATA packet (3-byte payload) with seq_nr anywhere in expected-3 ..= expected+3 across the 16-bit wrap, ANY ack_nr/window/timestamps; add_remove result ANY of its contract (Consumed{n <= 3, bytes <= 48}, AlreadyPresent, Unavailable); reassembly queue empty/non-empty before and after: all 4 combinations; SACK value to attach: none or any 16 leading bits; transport ready or blocked
 // @asserts a packet behind the cumulative position never reaches the queue and forces an immediate ACK (duplicate); otherwise the queue is addressed at offset seq_nr - (last consumed + 1) exactly once; the acknowledgement position advances by exactly the consumed sequence numbers (never backwards) and unacknowledged bytes by the consumed bytes; if anything is or was held out of order an ACK goes out IN THE SAME CALL carrying ack_nr == the new position and the SACK; a blocked transport keeps the immediate ACK pending; otherwise no datagram
@@ -445,7 +445,7 @@ fn ack_frees_step_sized(dup_data: bool, fill: usize, seg: usize) {
     finish(t);
 }
 
-// @verif id=VS.pam.ack props=C19,C02,C01,C06 tier=quick timeout=1500 mem=16
+// @verif id=VS.pam.ack props=C19,C02,C01,C06,C09 tier=quick timeout=1500 mem=16
 // @functions VirtualSocket::process_all_incoming_messages, VirtualSocket::process_incoming_message (ST_STATE), Segments::remove_up_to_ack, UserTx::truncate_front, RttEstimator::sample, MockCc::on_ack
 // @bounds established socket, MSS 4; ONE 4-byte segment in flight (sent once, 100 ms ago) over 6 buffered bytes; a blocked writer registered; one ST_STATE packet in the inbox acknowledging exactly that segment (ack_nr = its sequence number, across the 16-bit wrap), ANY window/timestamps
 // @asserts the acknowledged 4 bytes - and only those - are removed from the FRONT of the send buffer (2 bytes stay, content preserved), the segment queue is empty, the blocked writer is woken as soon as the acknowledgement frees space, the controller is credited with 4 bytes, RTO mode is left, the retransmission timer stops
